@@ -27,7 +27,8 @@ impl U31x8 {
     pub fn to_simd_vec(data: &[U31]) -> Vec<Self> {
         let mut result = vec![];
         for xs in data.chunks(SIMD_SIZE) {
-            let mut array = [U31::default(); SIMD_SIZE];
+            // Pads with the invalid feature id, which never matches any feature pair.
+            let mut array = [U31::MAX; SIMD_SIZE];
             array[..xs.len()].copy_from_slice(xs);
 
             #[cfg(not(target_feature = "avx2"))]
